@@ -695,7 +695,8 @@ def check_C17(tier):
             ro = []
             for h in hs:
                 keep = [h[0]] + [i for i in h[1:] if i["a"] not in ("op", "ext") or (i["a"] == "op" and i["op"]["op"] in chk_buf.READS)]
-                ro.append(chk_buf.close_contexts(keep))
+                ro.append(chk_buf.close_contexts(_equal_rewrites(keep, rnd)))
+            ro = _stale_image_histories(kind) + ro      # systematic ones first: the cap below must not cut them
             uniq = {val.canon(h): h for h in ro}
             ro = list(uniq.values())[: (500 if quick else 6000)]
             for h in ro:
@@ -704,6 +705,52 @@ def check_C17(tier):
             chk_buf.judge(run, "C17", strategy, kind, "shared", traces, ("w", "files", "err", "ret"))
     run.sample({"read": "len(obj) on a missing file", "expect": "file still missing, no open(...,'w'), same inode/mtime"})
     return run.finish()
+
+
+def _stale_image_histories(kind):
+    """Systematic read-only inputs: an object caches the file, another program rewrites the file with the same value
+    in another serialisation, then the same or the other object only READS inside a buffered context."""
+    S = lambda a: {"t": a}  # noqa: E731
+    if kind == "d":
+        docs = [{"t": "d", "m": {"a": S("i2"), "b": {"t": "l", "s": [S("n")]}}},
+                {"t": "d", "m": {"a": {"t": "d", "m": {"a": S("i1"), "b": S("n")}}, "b": S("i1")}}]
+        reads = [{"op": "len"}, {"op": "call"}, {"op": "getitem", "k": "a"}]
+    else:
+        docs = [{"t": "l", "s": [S("i2"), {"t": "d", "m": {"a": S("n"), "b": S("i1")}}]}]
+        reads = [{"op": "len"}, {"op": "call"}, {"op": "getitem", "i": 1}]
+    out = []
+    for d in docs:
+        for x in ("A", "B"):
+            for y in ("A", "B"):
+                # (per-object contexts would put A and B into different buffering states: outside the model's domain)
+                for enter in ({"a": "enterB", "c": val.NONE}, {"a": "enterB", "c": 1000}):
+                    for r1 in reads[:2]:
+                        for r2 in reads:
+                            out.append([{"a": "init", "docs": {"f1": d}, "ex": {"f1": True}},
+                                        {"a": "op", "o": x, "op": r1},
+                                        {"a": "ext", "r": "f1", "v": d, "style": 1},
+                                        dict(enter), {"a": "op", "o": y, "op": r2}, {"a": "exit"}])
+    return out
+
+
+def _equal_rewrites(h, rnd):
+    """Between contexts another program rewrites a file with the SAME value in another serialisation (key order,
+    whitespace): BufContract!External with v = the current document.  Nothing a reader does afterwards may write."""
+    docs, ex = h[0]["docs"], h[0]["ex"]
+    out, depth, touched = [h[0]], 0, False
+    for i in h[1:]:
+        if depth == 0 and touched and rnd.random() < 0.35:
+            r = rnd.choice(sorted(docs))
+            if ex[r]:
+                out.append({"a": "ext", "r": r, "v": docs[r], "style": 1})
+        out.append(i)
+        if i["a"] in ("enterO", "enterB"):
+            depth += 1
+        elif i["a"] == "exit":
+            depth -= 1
+        elif i["a"] == "op":
+            touched = True
+    return out
 
 
 def hist_check_nowrite(res, stat0, wc0, events, problems):
